@@ -24,6 +24,11 @@ def laws(rng, g, past):
     """yield (name, lhs, rhs)"""
     d = rng.choice([0, 1, 2, 3])
     p, q = g.formula(d), g.formula(d)
+    if rng.random() < 0.3:
+        # the operand contains an unbounded temporal operator of its own (state that the operators of a law share with the
+        # operators inside their operand must not leak)
+        inner = ("t1", rng.choice(["once", "hist"] if past else ["once", "hist", "ev", "alw"]), g.formula(rng.choice([0, 1])))
+        p = inner if rng.random() < 0.4 else ("b", rng.choice(["and", "or"]), inner, g.formula(rng.choice([0, 1])))
     a, b = g.bounds()
     c, dd = g.bounds()
     out = []
